@@ -197,8 +197,10 @@ def run_case(case, verbose=False, hooks=None):
                                                            else findings_sim.active_exclusions()):
         def veto(u):
             # open finding F-b: a timed waiter expiring while a notify is in progress and another waiter sleeps
-            if w.sync["notifying"] and len(w.sync["asleep"]) >= 2 and any(
-                    k[0] == getattr(u, "actor_id", None) and v["timeout"] is not None for k, v in w.sync["asleep"].items()):
+            aid = getattr(u, "actor_id", None)
+            if w.sync["notifying"] and any(k[0] == aid and v["timeout"] is not None for k, v in w.sync["asleep"].items()) \
+                    and any(k[0] != aid and v["timeout"] is None for k, v in w.sync["asleep"].items()):
+                # (only when a never-expiring waiter sleeps too: it is the one whose wake-up token gets taken back)
                 return "timer:expiry_during_notify_with_other_sleeper"
             return None
         w.timer_fire_hook = veto
